@@ -34,7 +34,8 @@ RULE = ("source {raw, compressed_segmentation, jpeg} x {deep gzip, flat "
         "process (default options / one shared options dict; plain and two "
         "sharded sources sharing their scale keys); re-conversions into a "
         "destination already holding another dataset (flat/deep x gzip "
-        "before x gzip after x source order). Non-trivial: "
+        "before x gzip after x source order); chunks of 256 KiB - 1 MiB "
+        "converted to sharded raw / sharded gzip / unsharded. Non-trivial: "
         "encoding, layout or data type differs between source and "
         "destination.")
 ASSUMPTIONS = [
@@ -419,6 +420,75 @@ def _write_src(src, info, shift):
     return want
 
 
+def _eval_big_chunks(col):
+    """chunks of 256 KiB .. 1 MiB (64^3 uint8, 64^3 uint32, 128x64x64
+    uint16): unsharded source -> sharded raw / sharded gzip / unsharded
+    destinations, and sharded -> unsharded"""
+    from neuroglancer_scripts import accessor, precomputed_io
+    from neuroglancer_scripts.scripts import convert_chunks as cc
+    d = sandbox.fresh_dir("c13b")
+    try:
+        n = 0
+        for dtype, size, cs in (("uint8", [128, 64, 64], [64, 64, 64]),
+                                ("uint32", [64, 64, 70], [64, 64, 64]),
+                                ("uint16", [128, 64, 64], [64, 64, 64])):
+            info = {"type": "image", "data_type": dtype, "num_channels": 1,
+                    "scales": [{"key": "s0", "size": size,
+                                "chunk_sizes": [cs], "resolution": [1, 1, 1],
+                                "voxel_offset": [0, 0, 0],
+                                "encoding": "raw"}]}
+            src = os.path.join(d, "src-" + dtype)
+            os.makedirs(src)
+            acc = accessor.get_accessor_for_url(src, {"flat": True,
+                                                      "gzip": False})
+            pio = precomputed_io.get_IO_for_new_dataset(info, acc)
+            z, y, x = np.meshgrid(np.arange(size[2]), np.arange(size[1]),
+                                  np.arange(size[0]), indexing="ij")
+            vol = ((x * 3 + y * 7 + z * 13) % 251).astype(dtype)[np.newaxis]
+            for c in pipeline.chunk_grid(size, cs):
+                pio.write_chunk(np.ascontiguousarray(
+                    vol[:, c[4]:c[5], c[2]:c[3], c[0]:c[1]]), "s0", c)
+            for dst_st in (SH1, SH2, FILE_STS[0]):
+                n += 1
+                dst = os.path.join(d, "dst%d" % n)
+                os.makedirs(dst)
+                dinfo = json.loads(json.dumps(info))
+                if dst_st["kind"] == "sharded":
+                    dinfo["scales"][0]["sharding"] = sharding(
+                        dst_st["triple"], dst_st["enc"], dst_st.get("ienc"))
+                with open(os.path.join(dst, "info"), "w") as f:
+                    json.dump(dinfo, f)
+                case = {"kind": "big-chunks", "dtype": dtype,
+                        "chunk": cs, "dst_storage": dst_st}
+                sandbox.install_atexit_capture()
+                try:
+                    with sandbox.quiet(), np.errstate(all="ignore"):
+                        cc.convert_chunks(src, dst, options=acc_options(
+                            dst_st))
+                        errs = sandbox.run_captured_exit_handlers()
+                    if errs:
+                        raise errs[0]
+                    rd = pipeline.open_dataset(dst)
+                    got = pipeline.read_scale(rd, 0)
+                    if not np.array_equal(got, vol):
+                        raise AssertionError("%d voxels differ" % int(
+                            np.count_nonzero(got != vol)))
+                    col.ev(1, 1, "ok")
+                except Exception as exc:
+                    col.ev(1, 1, "bad")
+                    col.violation("C13/big-chunks/destination-differs/"
+                                  + type(exc).__name__, case,
+                                  "every voxel of the source",
+                                  repr(exc)[:200])
+                finally:
+                    sandbox.drop_captured_exit_handlers()
+                    sandbox.rm(dst)
+        col.sample({"kind": "big-chunks", "dtype": "uint8",
+                    "chunk": [64, 64, 64], "dst_storage": SH1})
+    finally:
+        sandbox.rm(d)
+
+
 def _eval_reruns(col):
     """a destination that already holds a conversion of another dataset of
     the same geometry (same layout, either gzip setting) is converted into
@@ -484,6 +554,7 @@ def units(tier):
     u = [{"cases": cs[i:i + per]} for i in range(0, len(cs), per)]
     u.append({"kind": "api-sequences"})
     u.append({"kind": "reruns"})
+    u.append({"kind": "big-chunks"})
     return u
 
 
@@ -500,6 +571,9 @@ def run_unit(u):
     if u.get("kind") == "reruns":
         _eval_reruns(col)
         return col.result()
+    if u.get("kind") == "big-chunks":
+        _eval_big_chunks(col)
+        return col.result()
     for case in u["cases"]:
         _eval(col, case)
     col.sample(u["cases"][0])
@@ -514,6 +588,11 @@ def replay(case):
                 if r["case"].get("sequence") == case["sequence"]
                 and r["case"].get("shared_options")
                 == case["shared_options"]]
+    if case.get("kind") == "big-chunks":
+        _eval_big_chunks(col)
+        return [r for r in col.records()
+                if r["case"].get("dtype") == case["dtype"]
+                and r["case"].get("dst_storage") == case["dst_storage"]]
     if case.get("kind") == "rerun":
         _eval_reruns(col)
         return [r for r in col.records() if all(
